@@ -727,6 +727,22 @@ func (s *Server) handleRequest(req *dhcpv4.DHCPv4) (*dhcpv4.DHCPv4, error) {
 		}
 	}
 
+	// A binding that continues under another circuit-ID (or without one) must
+	// not stay filed under the old one: that entry would name a lease object
+	// that is no longer in the lease table, would survive the release of the
+	// binding and would later hand its address to whoever shows up on the old
+	// circuit while the pool gives it to somebody else.
+	if existingLease != nil && len(existingLease.CircuitID) > 0 {
+		oldKey := hex.EncodeToString(existingLease.CircuitID)
+		if len(lease.CircuitID) == 0 || oldKey != hex.EncodeToString(lease.CircuitID) {
+			s.leasesByCircuitIDMu.Lock()
+			if s.leasesByCircuitID[oldKey] == existingLease {
+				delete(s.leasesByCircuitID, oldKey)
+			}
+			s.leasesByCircuitIDMu.Unlock()
+		}
+	}
+
 	// Maintain circuit-ID secondary index for relay-aware lookup
 	if len(lease.CircuitID) > 0 {
 		cidKey := hex.EncodeToString(lease.CircuitID)
